@@ -52,6 +52,15 @@ const Ports Root::ports = {
 };
 #undef rObject
 
+const ClonePorts Cloned::ports(Leaf::ports, {
+    {"pc::c",      Leaf::ports["pc"]->cb},
+    {"pf::f",      Leaf::ports["pf"]->cb},
+    {"po::i:c:S",  Leaf::ports["po"]->cb},
+    {"str::s",     Leaf::ports["str"]->cb},
+    {"act:",       Leaf::ports["act"]->cb},
+    {"*",          default_reply()},
+});
+
 CaptureData::CaptureData(void) : replies(0), broadcasts(0), chains(0), forwards(0)
 {
     last[0] = 0;
